@@ -163,22 +163,26 @@ void h_order(void)
 /* ---- the same facts WITHOUT the well-formedness assumption: any non-empty configured strings (the property says "any list") ----
  * This target is where the known finding shows: values that start with ".." (or are ".") break both facts (and antisymmetry of Compare, which is not asserted here because it has no list-level consequence of its own). */
 #if defined(T_ANY)
+char *dc_parse_normalise(char *t);
 void h_any(void)
 {
     char h[N], a[N], b[N];
     h[N - 1] = 0; a[N - 1] = 0; b[N - 1] = 0;
     __CPROVER_assume(a[0] != 0 && b[0] != 0);      /* ConfigParser::strtokFile never yields an empty token */
-    int m_ha = dc_lookup(h, a);
-    int m_hb = dc_lookup(h, b);
-    int c = dc_compare(a, b);
-    int caa = dc_compare(a, a);
-    int s_ab = dc_issubset(a, b);
-    trace3(h, a, b);
+    /* stored values are what ACLDomainData::parse() makes of the tokens: its real normalisation statements run first */
+    char *na = dc_parse_normalise(a);
+    char *nb = dc_parse_normalise(b);
+    int m_ha = dc_lookup(h, na);
+    int m_hb = dc_lookup(h, nb);
+    int c = dc_compare(na, nb);
+    int caa = dc_compare(na, na);
+    int s_ab = dc_issubset(na, nb);
+    trace3(h, na, nb);
     __CPROVER_assert(!(m_ha == 0 && c == 0 && s_ab) || m_hb == 0, "ensures: [any values] a host matched by a is still matched by b when Merge() drops a as covered by b (Compare(a,b)==0 and IsSubset(a,b))");
     /* (values made of dots only, ".", "..", are not equal to themselves either; no other value covers them, so Merge() never
      *  tries to remove them: left out so that every counterexample of this obligation is a list the native replay can break) */
     int nondot = 0;
-    for (int i = 0; i < N; i++) { if (a[i] == 0) break; if (a[i] != '.') nondot = 1; }
+    for (int i = 0; i < N; i++) { if (a[i] == 0) break; if (a[i] != '.') nondot = 1; }   /* same for na: only dots are dropped */
     __CPROVER_assert(!nondot || caa == 0, "ensures: [any values] Compare(a,a) == 0: a stored value can be found again (Merge()'s storage.remove(oldItem) relies on it before it frees oldItem)");
 #ifdef REACH
     __CPROVER_assert(!(m_ha == 0 && c == 0 && s_ab && m_hb == 0), "reach: covered value dropped, host still matched");
